@@ -24,7 +24,7 @@
 (* property is silent (see Ambiguous below): then only the safety part is  *)
 (* demanded - if something is returned it must verify.                     *)
 (***************************************************************************)
-EXTENDS Naturals, Sequences, FiniteSets, TLC
+EXTENDS Integers, Sequences, FiniteSets, TLC
 
 CONSTANTS
   Statuses,            \* HTTP status codes of final answers
@@ -162,11 +162,20 @@ IdIsKeyHash(r) == r.idLen = 32 /\ r.id = "keyhash"
 \* the ideal client, one conjunct per check; the layer of the first failing check is reported
 STHVerdict(r) ==
   IF r.rootLen # 32 \/ r.sigForm # "ok" THEN "error" ELSE IF SigVerifies(r) THEN "ok" ELSE "error"
+\* AbsentId: an answer WITHOUT id is not judged (the repository's own fixtures omit it); if the client returns the
+\* SCT it must attribute it to the configured key - the signature it has verified says nothing else.
 SCTVerdict(r) ==
-  IF r.idLen # 32 \/ r.sigForm # "ok" \/ r.version # "v1" \/ r.extForm # "ok" THEN "error"
+  IF r.idLen \notin {0, 32} \/ r.sigForm # "ok" \/ r.version # "v1" \/ r.extForm # "ok" THEN "error"
   ELSE IF ~SigVerifies(r) THEN "error"
+  ELSE IF r.idLen = 0 THEN "any"
   ELSE IF r.id # "keyhash" THEN "error"
   ELSE "ok"
+\* what the returned value says, given the answer it was made from
+\* (stale: fields the answer omits are the retained ones, which the client has verified like any others)
+Reported(r, stale) ==
+  IF "idLen" \notin DOMAIN r THEN r
+  ELSE LET r1 == IF stale /\ r.sigForm = "missing" THEN [r EXCEPT !.sigForm = "ok"] ELSE r
+       IN IF r1.idLen = 0 THEN [r1 EXCEPT !.idLen = 32, !.id = "keyhash"] ELSE r1
 
 \* The response structure of a submission is reused across repetitions: when an earlier 200 body of the same call
 \* failed to decode it may have been decoded in part, and fields that a later answer omits keep those values.  What
@@ -217,18 +226,19 @@ Invoke(m, ch) ==
 \* the call ends: `end` tells how, `outcome` is the verdict, `returns` whether a value is handed back
 Complete(answers, end, outcome, layer, returns) ==
   LET m == pending.method
+      stale == \E i \in 1..(Len(answers) - 1) : answers[i].status = 200
       fin == IF answers = <<>> THEN None ELSE answers[Len(answers)]
       carry == IF outcome = "error" /\ end = "answered" /\ layer \in CarryLayers THEN "response"
                ELSE IF end # "answered" /\ answers = <<>> THEN "none"
                ELSE "unasserted"
-      result == IF returns THEN [k |-> "value", what |-> Kind(m), resp |-> Semantic(m, fin.class)]
+      result == IF returns THEN [k |-> "value", what |-> Kind(m), resp |-> Reported(Semantic(m, fin.class), stale)]
                 ELSE [k |-> "error", carries |-> IF end = "answered" THEN fin ELSE None]
       step == [method |-> m, chain |-> pending.chain, answers |-> answers, end |-> end,
                expect |-> outcome, layer |-> layer, carry |-> carry, result |-> result]
   IN /\ pending' = None
      /\ ncalls' = ncalls + 1
      /\ Returned' = IF returns THEN Returned \cup {[what |-> Kind(m), method |-> m, chain |-> pending.chain,
-                                                    resp |-> Semantic(m, fin.class)]}
+                                                    resp |-> Reported(Semantic(m, fin.class), stale)]}
                     ELSE Returned
      /\ last' = step
      /\ hist' = Append(hist, step)
